@@ -67,8 +67,8 @@ struct Spec {
   int obj = 0;           // mock object slot
   int func = 0;          // Func
   int term = 0;          // 0: RETURN (nothing for void) 1: THROW
-  int nseq = 0;          // number of sequences named (0..2)
-  int seq[2] = {0, 0};   // sequence slots named, distinct
+  int nseq = 0;          // number of sequences named (0..3)
+  int seq[3] = {0, 0, 0};   // sequence slots named, distinct
   long lo = 1, hi = 1;   // RT_TIMES(lo,hi); hi == INF unbounded
   MSpec m[2];            // parameter matchers
   int with[2] = {W_OFF, W_OFF};
